@@ -70,3 +70,9 @@ example :
     specKey { tombs := true } 8 vs = [⟨5, .softDelete, 50, 0⟩, ⟨4, .set, 40, 4⟩, ⟨3, .replace, 30, 3⟩] ∧
       specKey {} 8 vs = [⟨4, .set, 40, 4⟩, ⟨3, .replace, 30, 3⟩] ∧
       getAt 8 45 vs = some 4 ∧ getAt 8 55 vs = none ∧ specGetAt 8 35 vs = some 3 := by decide
+
+/-- **time-travel read**: `get_at` returns the value of the retained version with the greatest
+timestamp not above `t` (nothing if that version is a tombstone or none exists), for version lists
+whose timestamps strictly decrease from newest to oldest -/
+theorem C10_get_at (snap t : Nat) (vs : List HVer) (h : TsDesc vs) : getAt snap t vs = specGetAt snap t vs :=
+  getAt_eq_spec snap t vs h
